@@ -168,7 +168,7 @@ def shape_key(c):
 
 def nontrivial(c):
     return bool(c['free'] or c['free_nested'] or c['free_write'] or c['kind'] in ('method', 'classmethod')
-                or any(p['default'] for p in c['params']))
+                or any(p['default'] for p in c['params']) or c.get('namespaces', 1) > 1)
 
 
 # ------------------------------------------------------------------------------------------------ rendering
